@@ -7,6 +7,8 @@
      T0=<status>        the extracted tree_cse model (empty opt_subs) against section T
      T1=<status>        the extracted tree_cse model run with the library's opt_subs (section O)
                         against section C
+     OP=<status>        the extracted opt_cse model against section O (the set of opt_subs entries)
+     CS=<status>        the extracted model of the whole cse() (opt_cse ; tree_cse) against section C
      BS=<status>        the model's back-substitution of section C against the library's
      WF=<0|1>           every input satisfies wf and tree_ok (hypotheses of C01/C02/C39 theorems)
      XC=<0|1|?>         excl_complete: every Symbol leaf of the inputs is in the excluded_symbols the model
@@ -134,6 +136,20 @@ let compare_model (m : ((expr * expr) list * expr list) res) (s : sect) : string
             | Err t' when t' = t -> "OK"
             | _ -> "DIFF " ^ t)
 
+(* opt_subs as a sorted list of "key => value" texts *)
+let show_opt (m : (expr * expr) list) : string =
+  String.concat " ;; " (List.sort compare (List.map (fun (k, v) -> norm k ^ " => " ^ norm v) m))
+
+let compare_opt (m : (expr * expr) list res) (o : string) : string =
+  match m with
+  | Ok mm ->
+      if is_err o || o = "MISSING" then "DIFF " ^ show_opt mm ^ " (library: " ^ o ^ ")"
+      else if show_opt mm = show_opt (pairs_of o) then "OK" else "DIFF " ^ show_opt mm
+  | _ ->
+      let t = err_token m in
+      if t = "UNMODELLED" || t = "FUEL" then t
+      else if String.trim o = t then "OK" else "DIFF " ^ t
+
 let check_sect (es : expr list) (s : sect) : string =
   match s with
   | Err _ -> "NA"
@@ -175,8 +191,10 @@ let () =
             let o = match sec "O" fields with Some b -> b | None -> "MISSING" in
             let t0 = compare_model (tree_cse_lib [] es) t in
             let t1 = if is_err o || o = "MISSING" then "NA" else compare_model (tree_cse_lib (pairs_of o) es) c in
-            Printf.printf "CHKC=%s\tCHKT=%s\tT0=%s\tT1=%s\tBS=%s\tWF=%s\tXC=%s\tGUARD=%s\n"
-              (check_sect es c) (check_sect es t) t0 t1 (backsubst_status c)
+            let op = compare_opt (opt_cse_lib es) o in
+            let cs = compare_model (cse_lib es) c in
+            Printf.printf "CHKC=%s\tCHKT=%s\tT0=%s\tT1=%s\tOP=%s\tCS=%s\tBS=%s\tWF=%s\tXC=%s\tGUARD=%s\n"
+              (check_sect es c) (check_sect es t) t0 t1 op cs (backsubst_status c)
               (if List.for_all (fun x -> wf x && tree_ok x) es then "1" else "0")
               (match excl_complete_run es with Ok true -> "1" | Ok false -> "0" | _ -> "?")
               (if cse_guard es then "1" else "0")
